@@ -622,9 +622,17 @@ func runCase(p params, ops []opJ) (*observed, error) {
 	close(barQ)
 	cancel()
 	close(rd.inbox)
+	stopped := false
 	select {
 	case <-startDone:
+		stopped = true
 	case <-time.After(5 * time.Second):
+	}
+	if stopped {
+		// the runner never closes outputStream nor stops its errChan listener: let those goroutines go, otherwise every
+		// later quiescence barrier has to look at them
+		quiesce()
+		sr.VerifRelease()
 	}
 	if dup {
 		return nil, fmt.Errorf("duplicate record id in the script")
@@ -910,6 +918,9 @@ func (eng) Generate(mode, tier string, r *hx.Rand) []*hx.Case {
 	if tier == "thorough" {
 		n, nbig = 3000, 500
 	}
+	// hx.NewRand(seed) streams for nearby seeds are shifts of one another (state = seed*golden + c, step = golden);
+	// re-rooting on the first output decorrelates them
+	r = hx.NewRand(r.U64())
 	var cs []*hx.Case
 	for i := 0; i < n; i++ {
 		cs = append(cs, genCase(r.Fork(), false))
